@@ -442,9 +442,12 @@ func extractTagTokensFromComment(commentText string, baseLine, baseCol uint32) [
 	}
 
 	parts := strings.Split(commentText, ",")
-	searchStart := 0
+	// a tag is located inside its own comma-separated piece (byte offset
+	// partStart), not by searching the comment for its name
+	partStart, nextStart := 0, 0
 
 	for _, part := range parts {
+		partStart, nextStart = nextStart, nextStart+len(part)+1
 		trimmed := strings.TrimSpace(part)
 		colonIdx := strings.Index(trimmed, ":")
 		if colonIdx == -1 {
@@ -456,18 +459,14 @@ func extractTagTokensFromComment(commentText string, baseLine, baseCol uint32) [
 			continue
 		}
 
-		// Find the position of this tag in the original comment text
-		tagStart := strings.Index(commentText[searchStart:], name+":")
-		if tagStart == -1 {
-			continue
-		}
-		tagStart += searchStart
+		// the name opens the piece, after its leading blanks
+		tagStart := partStart + len(part) - len(strings.TrimLeftFunc(part, unicode.IsSpace))
 
 		// Tag name with colon: "name:"
 		tokens = append(tokens, semanticToken{
 			line:      baseLine,
 			col:       colAt(tagStart),
-			length:    uint32(lsputil.UTF16Len(name) + 1),
+			length:    uint32(lsputil.UTF16Len(trimmed[:colonIdx]) + 1),
 			tokenType: TokenTypeTag,
 			modifiers: 0,
 		})
@@ -477,8 +476,8 @@ func extractTagTokensFromComment(commentText string, baseLine, baseCol uint32) [
 			value := strings.TrimSpace(trimmed[colonIdx+1:])
 			if value != "" {
 				// Find where the value starts in the original text
-				tagNameEnd := tagStart + len(name) + 1
-				valueStart := strings.Index(commentText[tagNameEnd:], value)
+				tagNameEnd := tagStart + colonIdx + 1
+				valueStart := strings.Index(commentText[tagNameEnd:partStart+len(part)], value)
 				if valueStart != -1 {
 					tokens = append(tokens, semanticToken{
 						line:      baseLine,
@@ -487,13 +486,9 @@ func extractTagTokensFromComment(commentText string, baseLine, baseCol uint32) [
 						tokenType: TokenTypeTagValue,
 						modifiers: 0,
 					})
-					searchStart = tagNameEnd + valueStart + len(value)
-					continue
 				}
 			}
 		}
-
-		searchStart = tagStart + len(name) + 1
 	}
 
 	// If no valid tags found, return nil (comment will be handled normally)
